@@ -24,7 +24,7 @@ theorem isValid_spec (st : RState) :
       | [], .raised e => .raise e
       | [], s => .other s
       | _ :: _, _ => .ok false :=
-  (prefixLaw_eval env impl cfg fuel inst schema).isValid_spec st
+  (lawful_eval env impl cfg fuel inst schema).prefixLaw.isValid_spec st
 
 /-- `validate()` raises the first error `iter_errors` yields. -/
 theorem validate_spec (st : RState) :
@@ -34,13 +34,13 @@ theorem validate_spec (st : RState) :
       | [], .raised e => .raise e
       | [], s => .other s
       | e :: _, _ => .invalid e :=
-  (prefixLaw_eval env impl cfg fuel inst schema).validate_spec st
+  (lawful_eval env impl cfg fuel inst schema).prefixLaw.validate_spec st
 
 /-- taking `k ≥ 1` errors and closing the iterator yields the first `k` errors of the full list -/
 theorem take_prefix (st : RState) (k : Nat) (hk : 0 < k) :
     (run env impl cfg fuel inst schema (some k) st).errs
       = (run env impl cfg fuel inst schema none st).errs.take k :=
-  (prefixLaw_eval env impl cfg fuel inst schema).take_prefix st k hk
+  (lawful_eval env impl cfg fuel inst schema).prefixLaw.take_prefix st k hk
 
 /-- `is_valid` ⇔ `validate()` raises nothing ⇔ `iter_errors` yields nothing (when no exception) -/
 theorem entry_points_agree (st : RState)
@@ -49,7 +49,11 @@ theorem entry_points_agree (st : RState)
         ↔ (run env impl cfg fuel inst schema none st).errs = [])
     ∧ ((validateM (run env impl cfg fuel inst schema) st).1 = .ok ()
         ↔ (run env impl cfg fuel inst schema none st).errs = []) :=
-  (prefixLaw_eval env impl cfg fuel inst schema).entry_points_agree st hdone
+  (lawful_eval env impl cfg fuel inst schema).prefixLaw.entry_points_agree st hdone
+
+/-- the exhaustive run (`list(iter_errors(...))`) never stops "because the consumer stopped" -/
+theorem exhaustive_never_budget (st : RState) : (run env impl cfg fuel inst schema none st).stop ≠ .budget :=
+  (lawful_eval env impl cfg fuel inst schema).nobudget st
 
 /-- `best_match` returns an error without context that is one of the given errors or a
     descendant of one of them in its context tree. -/
